@@ -248,6 +248,7 @@ partial def parseTy : Sexp → Option TyExpr
   | .atom "bool" => some .bool | .atom "i8" => some .i8 | .atom "i16" => some .i16 | .atom "i32" => some .i32
   | .atom "i64" => some .i64 | .atom "u8" => some .u8 | .atom "u16" => some .u16 | .atom "u32" => some .u32
   | .atom "f32" => some .f32 | .atom "f64" => some .f64 | .atom "string" => some .string | .atom "char" => some .char
+  | .atom "u64" => some .u64 | .atom "i128" => some .i128 | .atom "u128" => some .u128
   | .list [.atom "option", t] => (parseTy t).map .option
   | .list [.atom "vec", t] => (parseTy t).map .vec
   | .list [.atom "map", t] => (parseTy t).map .map
